@@ -225,7 +225,14 @@ DeclLines == <<
   "fn ident(x: array) = x",
   "println(ident([1])[0])",
   "let oo: option<int, int> = option.some(1)",
-  "let pp: Pt<int> = Pt(1)" >>
+  "let pp: Pt<int> = Pt(1)",
+  "let oi: option<int> = option.some(1)",
+  "println(match oi { .some(x) -> x })",
+  "let ri: result<int, string> = result.ok(1)",
+  "println(match ri { .ok(x) -> x })",
+  "fn dup2(a, a, b = 3) = a",
+  "println(dup2(1, 2))",
+  "println(match panic(\"x\") { _ -> 1 })" >>
 LineIdx == 1..Len(DeclLines)
 RECURSIVE JoinLines(_, _)
 JoinLines(ls, i) == IF i > Len(ls) THEN "" ELSE ls[i] \o "\n" \o JoinLines(ls, i + 1)
